@@ -50,8 +50,8 @@ const vpBaseTime = 1296688602
 type vpEnvOpt struct {
 	timeBase int64 // timestamp of the genesis header (0 = vpBaseTime)
 	grind    bool  // give every honest header a nonce that passes the proof-of-work predicate
-	// bitsFor gives the difficulty bits of the honest header on top of chain (nil: vpPowLimitBits)
-	bitsFor func(chain []wire.BlockHeader) uint32
+	// bitsFor gives the difficulty bits of the honest header with timestamp ts on top of chain (nil: vpPowLimitBits)
+	bitsFor func(chain []wire.BlockHeader, ts int64) uint32
 	// genesisFilter: the filter header of the genesis block (nil: the constant 0x0f00..)
 	genesisFilter *chainhash.Hash
 	// filterFor gives the committed filter header of height h on top of prev (nil: an opaque constant per height)
@@ -113,7 +113,7 @@ func vpNewBMEnvOpt(n, bt, ft int, params chaincfg.Params, opt vpEnvOpt) *vpBMEnv
 	for h := 1; h <= n; h++ {
 		nh := vpHonestHeader(&e.chain[h-1], h, uint32(h))
 		if opt.bitsFor != nil {
-			nh.Bits = opt.bitsFor(e.chain)
+			nh.Bits = opt.bitsFor(e.chain, nh.Timestamp.Unix())
 		}
 		if opt.grind {
 			vpGrind(&nh, true)
